@@ -56,9 +56,9 @@ class BrokenTie(Exception):
     pass
 
 
-# Generator origins that can be switched off (C04_SKIP=group,...).  All findings reported by this
-# unit were fixed in /repo except the stored `$name` group that outlives its list (known finding
-# C15-stored-group-dangling): its scenario is generated by default and reported as KNOWN-FINDING.
+# Generator origins that can be switched off (C04_SKIP=group,...).  Every finding reported by this
+# unit has been fixed in /repo (the stored `$name` group that outlived its list: 8228a47, the value
+# is a snapshot now); their programs are ordinary regression scenarios / corpus cases.
 SKIP = set(x for x in os.environ.get("C04_SKIP", "").split(",") if x)
 FINDINGS = {"emptystr", "engineobj", "fieldidx", "unsettarget", "group"} - SKIP
 # open findings (reported, not yet fixed in /repo) would be listed here and generated only with
@@ -482,6 +482,26 @@ SCENARIOS = [
     "exec nosuch.scr", "local.x = waitexec nosuch.scr", "thread nosuch.scr::main", "local.x = waitthread prog::sub\\nprintln local.x", "exec prog::sub",
     "goto sub", "thread \"\" 1", "local.x = spawn NoSuchClass", "local.x = spawn SimpleEntity targetname", "local.x = spawn SimpleEntity spawntarget nobody",
     "local.x = spawn Listener", "local.x = spawn ScriptThread", "local.x = spawn Game\\nlocal.x remove", "local.x = spawn SimpleEntity origin \"a b c\" angle x",
+    # a field store whose target is a group (d494aca: the assignment fans out to every member, highest index first)
+    "$g.bar = 5\\nif ($g[1].bar != 5 || $g[2].bar != 5) {\\nprintln \"@! a member of the group was not assigned\"\\n}",
+    "local.a = spawn SimpleEntity\\nlocal.b = spawn SimpleEntity\\nlocal.g = local.a::local.b\\nlocal.g.tag = 7\\nif (local.a.tag != 7 || local.b.tag != 7) {\\nprintln \"@! a member of the array was not assigned\"\\n}",
+    "local.a = spawn SimpleEntity\\nlocal.b = spawn SimpleEntity\\nlocal.g = local.a::5::local.b\\nlocal.g.tag = 9\\nif (local.a.tag != 9) {\\nprintln \"@! the member before the failing one was not assigned\"\\n}\\nif (local.b.tag != NIL) {\\nprintln \"@! a member after the failing one was assigned\"\\n}",
+    "local.a = spawn SimpleEntity\\nlocal.b = spawn SimpleEntity\\nlocal.g = local.a::NIL::local.b\\nlocal.g.tag = 9\\nif (local.a.tag != 9 || local.b.tag != NIL) {\\nprintln \"@! NIL member: wrong members assigned\"\\n}",
+    "local.a = spawn SimpleEntity\\nlocal.b = spawn SimpleEntity\\nlocal.c = spawn SimpleEntity\\nlocal.g = local.a::local.c::local.b\\nlocal.c remove\\nlocal.g.tag = 9\\nif (local.b.tag != 9 || local.a.tag != 9) {\\nprintln \"@! a dead member stopped the assignment\"\\n}",
+    "local.a = spawn SimpleEntity\\nlocal.b = spawn SimpleEntity\\nlocal.g = local.a::local.b::local::game::level::parm::group\\nlocal.g.tag = 1\\nif (local.tag != 1 || game.tag != 1 || level.tag != 1 || parm.tag != 1 || group.tag != 1) {\\nprintln \"@! a member of the 7-element array was not assigned\"\\n}",
+    "for (local.i = 0; local.i < 3; local.i++) {\\nlocal.p = spawn SimpleEntity targetname \"q3\"\\n}\\n$q3.tag = 4\\nif ($q3[1].tag != 4 || $q3[2].tag != 4 || $q3[3].tag != 4) {\\nprintln \"@! a member of the group of 3 was not assigned\"\\n}",
+    "for (local.i = 0; local.i < 4; local.i++) {\\nlocal.p = spawn SimpleEntity targetname \"q4\"\\n}\\n$q4.tag = (1 / 0)\\n$q4.tag += 1\\n$q4.tag[1] = 2\\nlocal.t = $q4.tag\\n$q4.origin = ( 1 2 3 )\\n$q4.origin = \"x\"\\nprintln $q4[4].origin",
+    "$g.targetname = \"zz\"\\nif ($zz.size != 2) {\\nprintln \"@! renaming the group through the field did not reach both members\"\\n}\\n$zz.targetname = \"g\"",
+    "$g.centroid = 5\\n$g.forwardvector = 1\\n$g.classname = 2",
+    "for (local.i = 0; local.i < 30; local.i++) { $g.centroid = 5 }",
+    "for (local.i = 0; local.i < 30; local.i++) { local.r_ca123.bar = local.i }",
+    "for (local.i = 0; local.i < 30; local.i++) { local.r_cal.bar = (1 / 0)\\nlocal.r_arr.bar = 1 }",
+    "local.m[1] = local.r_lent\\nlocal.m[2] = local.r_lpl\\nlocal.m.tag = 3\\nif (local.r_lent.tag != 3 || local.r_lpl.tag != 3) {\\nprintln \"@! a member of the hash array was not assigned\"\\n}",
+    "local.m[1] = local.r_lent\\nlocal.m[\"x\"] = 5\\nlocal.m[2] = local.r_lpl\\nfor (local.i = 0; local.i < 30; local.i++) { local.m.tag = local.i }",
+    "local.h = spawn C04Probe\\nlocal.e = spawn SimpleEntity\\nlocal.g = local.e::local.h\\nfor (local.i = 0; local.i < 30; local.i++) { local.g.c04bad = local.i }\\nlocal.g = local.h::local.e\\nfor (local.i = 0; local.i < 30; local.i++) { local.g.c04bad = local.i\\nlocal.g.c04ro = 1\\nlocal.g.c04wo = local.i }",
+    "local.h = spawn C04Probe targetname \"hq\"\\nlocal.i = spawn C04Probe targetname \"hq\"\\nlocal.j = spawn SimpleEntity targetname \"hq\"\\nfor (local.k = 0; local.k < 30; local.k++) { $hq.c04bad = local.k\\n$hq.c04wo = 1\\n$hq.c04ro = 1 }",
+    "local.g = local::local\\nlocal.g.me = local.g\\nlocal.g.me.me = 1\\nprintln local.me",
+    "local.g = local.r_lent::local\\nlocal.g.bar = local\\nlocal.g remove\\nprintln \"never\"",
     # a host class whose getter / setter / commands throw (harness class C04Probe): the catch blocks of the field and command opcodes
     "local.h = spawn C04Probe\\nlocal.t = local.h.c04bad\\nprintln local.t",
     "local.h = spawn C04Probe\\nlocal.h.c04bad = 1\\nlocal.h.c04bad = NIL\\nlocal.h.c04bad += 1",
@@ -502,7 +522,9 @@ SCENARIOS = [
 GROUP_DANGLE = ("local.a = spawn SimpleEntity targetname \"dg\"\\nlocal.b = spawn SimpleEntity targetname \"dg\"\\nlocal.grp = $dg\\n"
                 "local.a targetname \"dh\"\\nlocal.b targetname \"dh\"\\n"
                 "for (local.i = 0; local.i < 300; local.i++) {\\nlocal.c = spawn SimpleEntity targetname (\"dk\" + local.i)\\n"
-                "local.d = spawn SimpleEntity targetname (\"dk\" + local.i)\\nif (local.grp.size != 0) {\\nprintln (\"@! a stored group value shows a member of another group: \" + local.grp[1].targetname)\\nbreak\\n}\\n}")
+                "local.d = spawn SimpleEntity targetname (\"dk\" + local.i)\\n"
+                "if (local.grp.size != 2 || local.grp[1] != local.a || local.grp[2] != local.b) {\\n"
+                "println (\"@! a stored group value shows a member of another group: size \" + local.grp.size)\\nbreak\\n}\\n}")
 
 
 def raw_statements(tier, rng):
@@ -761,8 +783,6 @@ def script_of(exe, case):
 
 
 def signature(kind, why):
-    if kind == "scenario-assertion" and "stored group value" in why:
-        return "C15-stored-group-dangling"
     if kind in ("crash", "timeout"):
         m = re.search(r"(AddressSanitizer: [a-z\-]+|runtime error: [^\n]{0,60}|SEGV|watchdog)", why)
         ms = re.search(r"SUMMARY: AddressSanitizer: ([a-z\-]+) [^\n]* in ([A-Za-z_:~<>]+)", why)
@@ -793,7 +813,7 @@ def check(res, tier, seed):
         "representative values: 43 values of 12 kinds (harness/C04.cpp rep table); SafeContainer and Ref values cannot be produced by a script on this tree and are not covered",
         "interference between THREADS is observed, not modelled: the model has no state shared between threads; the unrelated second thread and the sentinel script are checked directly",
         "conversions the C++ standard leaves undefined (a negative float cast to an unsigned index or wait time) are not predicted; UBSan's float-cast-overflow check is not part of -fsanitize=undefined",
-        "ASan cannot see a use of a freed BlockAlloc slot (the pools keep the memory; hook H2 is not available): the `$name` group value that outlives its list (known finding C15-stored-group-dangling) is therefore kept out of the default generation",
+        "ASan cannot see a use of a freed BlockAlloc slot (the pools keep the memory; hook H2 is not available): stale pool references are only caught by scenarios that check their own results (`@!` lines), such as the stored `$name` group scenario",
         "a ScriptAbortException raised on purpose (`error a b`) or by the execution-time protection is outside the generator (C14's subject); unbounded recursion (`thread \"\"`) likewise",
     ]
     exe = harness()
